@@ -666,6 +666,15 @@ def bounded(payload):
                 ops += [["clear"], ["var", b], ["var", "<state>" + b]]
             run({"target": target, "ops": ops})
 
+    # ---- a variable whose name looks like the key / identifier of another variable's reference count ----
+    import itertools as _it
+    for b in ["y", "a", "refcnt_y", "<state>y", "k_0"]:
+        base = [["var", b], ["refcnt", b]]
+        for look in ("refcnt_" + b, "dagrt_refcnt_" + b, "lploc_" + b, "lploc_refcnt_" + b, "refcnt_" + b.replace("<state>", "")):
+            four = base + [["var", look], ["refcnt", look]]
+            for perm in _it.permutations(four):
+                run({"target": "fortran", "ops": [list(x) for x in perm]})
+
     # ---- random tail ----
     for i in range(n_random):
         target = "python" if i % 2 == 0 else "fortran"
